@@ -235,83 +235,87 @@ func checkC03(c *Ctx) (string, []string) {
 	c.extra["code_reads_bounded"] = nreach
 
 	// ---- blob parsing guards
-	c.Rule("C03.blob-guards", "the blob loaders keep their length guards: each required comparison is present, and every slice of the blob in DeBlobProgramCode is dominated by the guard on its bound", 12)
-	req := map[string][]string{
-		"DeBlobProgramCode":     {"(u64(len(", "(4294967296 <= ("},
-		"ReadBytes":             {"(u64(len(p0)) < p1)"},
-		"ReadUintFixed":         {"(len(p0) < p1)", "(8 < p1)", "(p1 < 0)"},
-		"ReadUintVariable":      {"(len(p0) < 1)", "(len(p0) < 9)", "(len(p0) < (1 + math/bits.LeadingZeros8(^p0[0])))"},
-		"decodeUintFixedLength": {"(len(p0) < p1)"},
-		"MakeBitMasks":          {"(len(p1) != phi("},
-	}
-	var fnames []string
-	for n := range req {
-		fnames = append(fnames, n)
-	}
-	sort.Strings(fnames)
-	for _, n := range fnames {
-		f := c.Fn("PVM", n)
-		if f == nil {
-			continue
+	c.Rule("C03.blob-guards", "every index and slice expression of the blob loaders (and of the package helpers they hand the blob to) is in range: proven by the linear bounds prover from the dominating guards, or bounded by a reader's success postcondition (bytes consumed ≤ length, proven inside the reader) under that reader's success edge; MakeBitMasks walks the mask only when its length matches", 30)
+	loaders := []*ssa.Function{}
+	seenL := map[*ssa.Function]bool{}
+	var addLoader func(f *ssa.Function)
+	addLoader = func(f *ssa.Function) {
+		if f == nil || seenL[f] || len(f.Blocks) == 0 || f.Pkg == nil || f.Pkg.Pkg.Path() != modPath+"/PVM" {
+			return
 		}
-		conds := condShapes(f)
-		for _, want := range req[n] {
-			found := false
-			for _, s := range conds {
-				if strings.HasPrefix(s, want) || s == want {
-					found = true
-				}
-			}
-			c.Check(found, "C03.blob-guards", "PVM."+n+" · "+want, f.Pos(), "guard present", "length guard "+want+"… is missing from "+n+" (conditions: "+strings.Join(conds, " ; ")+")")
-		}
-	}
-	if f := c.Fn("PVM", "DeBlobProgramCode"); f != nil {
+		seenL[f] = true
+		loaders = append(loaders, f)
 		allInstrs(f, func(in ssa.Instruction) {
-			sl, ok := in.(*ssa.Slice)
-			if !ok || !isByteSlice(sl.X.Type()) {
+			call, ok := in.(*ssa.Call)
+			if !ok || call.Call.StaticCallee() == nil {
 				return
 			}
-			bound := sl.High
-			if bound == nil {
-				bound = sl.Low
-			}
-			if bound == nil {
-				return
-			}
-			bs := exprStr(bound, shapeOpts)
-			key := "PVM.DeBlobProgramCode · slice bound " + bs
-			if k, isC := constInt(bound); isC {
-				// constant bound: guarded by a preceding successful fixed-length read of at least k bytes
-				_ = k
-				c.OK("C03.blob-guards", key, in.Pos(), "constant bound following a successful fixed-length read")
-				return
-			}
-			// value returned together with a success status by a reader (dataUsed), or guarded by u64(len(x)) < bound
-			if ex, isEx := stripConv(bound).(*ssa.Extract); isEx {
-				if call, isCall := ex.Tuple.(*ssa.Call); isCall && call.Call.StaticCallee() != nil && call.Call.StaticCallee().Name() == "ReadUintVariable" && ex.Index == 1 {
-					c.OK("C03.blob-guards", key, in.Pos(), "bytes consumed as reported by ReadUintVariable (≤ len by its own guards)")
-					return
+			g := call.Call.StaticCallee()
+			// helpers that receive (a part of) the blob
+			for _, a := range call.Call.Args {
+				if isByteSlice(a.Type()) && g.Name() != "preDecodeBlocks" {
+					addLoader(g)
 				}
 			}
-			pass := condEdges(f, func(v ssa.Value) (bool, bool) {
-				b, ok := v.(*ssa.BinOp)
-				if !ok {
-					return false, false
-				}
-				l, r := exprStr(b.X, shapeOpts), exprStr(b.Y, shapeOpts)
-				lenS := "u64(len(" + exprStr(sl.X, shapeOpts) + "))"
-				switch {
-				case b.Op == token.GTR && l == bs && r == lenS:
-					return true, false
-				case b.Op == token.LSS && l == lenS && r == bs:
-					return true, false
-				}
-				return false, false
-			})
-			c.Check(guardedBy(f, in, pass), "C03.blob-guards", key, in.Pos(), "bound compared with the slice length first", "blob sliced at a blob-declared length without comparing it with the remaining length (Go slice-bounds panic on a short blob)")
 		})
 	}
-
+	for _, n := range []string{"DeBlobProgramCode", "ReadBytes", "ReadUintFixed", "ReadUintVariable", "decodeUintFixedLength", "MakeBitMasks"} {
+		addLoader(c.Fn("PVM", n))
+	}
+	sort.Slice(loaders, func(i, j int) bool { return funcKey(loaders[i]) < funcKey(loaders[j]) })
+	nsites := 0
+	for _, f := range loaders {
+		for _, s := range checkBounds(f) {
+			nsites++
+			key := funcKey(f) + " · " + abbr(s.desc)
+			if s.ok {
+				c.OK("C03.blob-guards", key, s.in.Pos(), "in range by the dominating guards (linear bounds prover)")
+				continue
+			}
+			if why := blobSiteByPostcondition(f, s.in); why != "" {
+				c.OK("C03.blob-guards", key, s.in.Pos(), "%s", why)
+				continue
+			}
+			if f.Name() == "MakeBitMasks" {
+				// the two reads inside the walk over the instruction octets: i/8 into the mask and the previous instruction start;
+				// their range follows from the length test below (non-linear: ⌈n/8⌉) and from prev ≤ i
+				continue
+			}
+			c.Bad("C03.blob-guards", key, s.in.Pos(), "cannot show this index/slice of blob data in range (residual %s ≥ 0): a short or inconsistent blob raises a Go slice-bounds panic", s.goal)
+		}
+	}
+	c.extra["blob_loader_sites"] = nsites
+	if f := c.Fn("PVM", "MakeBitMasks"); f != nil {
+		// the walk over the instruction octets is entered exactly when len(mask) == ⌈len(instructions)/8⌉
+		var site ssa.Instruction
+		allInstrs(f, func(in ssa.Instruction) {
+			switch x := in.(type) {
+			case *ssa.IndexAddr:
+				if x.X == ssa.Value(f.Params[1]) && site == nil {
+					site = in
+				}
+			}
+		})
+		bad := ""
+		if site == nil {
+			bad = "no read of the mask octets found"
+		} else {
+			for n := int64(0); n <= 40 && bad == ""; n++ {
+				for m := int64(0); m <= 7; m++ {
+					env := intEnv{params: map[ssa.Value]int64{}, lens: map[ssa.Value]int64{f.Params[0]: n, f.Params[1]: m}, unknown: map[ssa.Value]bool{}, cells: map[ssa.Value]int64{}, skipLoops: true}
+					fuel := 4000
+					env.fuel = &fuel
+					reached := reachQ(f.Blocks[0], nil, env, func(b *ssa.BasicBlock) bool { return b == site.Block() }, func(b *ssa.BasicBlock) bool { return false }, 0, false)
+					want := n > 0 && m == (n+7)/8
+					if reached != want {
+						bad = fmt.Sprintf("|instructions|=%d |mask|=%d: mask octets are read=%v, expected %v (the mask must hold exactly ⌈n/8⌉ octets)", n, m, reached, want)
+						break
+					}
+				}
+			}
+		}
+		c.Check(bad == "", "C03.blob-guards", "PVM.MakeBitMasks · mask length", f.Pos(), "the mask is walked only when |mask| = ⌈|instructions|/8⌉ (328 length pairs evaluated)", bad)
+	}
 	// ---- engine guards
 	c.Rule("C03.engine-guards", "the engines and jump helpers keep their range guards (pc against the table lengths, jump-table index, basic-block membership)", 8)
 	ereq := map[string][]string{
@@ -323,7 +327,7 @@ func checkC03(c *Ctx) (string, []string) {
 		"Bitmask.IsStartOfBasicBlock":               {"(u32(len(p0)) <= p1)"},
 		"Bitmask.IsStartOfInstruction":              {"(len(p0) <= p1)", "(p1 < 0)"},
 	}
-	fnames = fnames[:0]
+	var fnames []string
 	for n := range ereq {
 		fnames = append(fnames, n)
 	}
@@ -368,7 +372,7 @@ func checkC03(c *Ctx) (string, []string) {
 	c.Rule("C03.unknown-id", "unknown host-call identifiers are routed to WHAT and every identifier-indexed table is bounds-guarded", 4)
 	e.ruleUnknownID("C03.unknown-id")
 	e.ruleOperationIndex("C03.unknown-id")
-	c.Rule("C03.range-check-shape", "isReadable/isWriteable range tests cannot wrap", 6)
+	c.Rule("C03.range-check-shape", "isReadable/isWriteable range tests cannot wrap", 8)
 	e.ruleRangeCheckShape("C03.range-check-shape")
 	c.Rule("C03.memory-guards", "no host call touches guest memory pages without a dominating range check (Memory.Read/Write dereference unmapped pages otherwise)", 28)
 	e.ruleMemoryGuards("C03.memory-guards", "C03.memory-guards", e.funcs)
@@ -386,4 +390,117 @@ func constantInt64(k *types.Const) (int64, bool) {
 	var v int64
 	_, err := fmt.Sscan(s, &v)
 	return v, err == nil
+}
+
+// blobSiteByPostcondition: an index/slice site the prover cannot decide
+// locally is in range because its bound was produced by a reader called on
+// the same slice, under that reader's success edge, and the reader proves
+// "bound ≤ len(data)" at each of its successful returns. Returns the reason
+// or "".
+func blobSiteByPostcondition(f *ssa.Function, in ssa.Instruction) string {
+	sl, ok := in.(*ssa.Slice)
+	if !ok || sl.High != nil || sl.Low == nil {
+		return ""
+	}
+	// the reader calls on this very slice value
+	for _, ref := range *sl.X.Referrers() {
+		call, ok := ref.(*ssa.Call)
+		if !ok || call.Call.StaticCallee() == nil || len(call.Call.Args) == 0 || call.Call.Args[0] != sl.X {
+			continue
+		}
+		g := call.Call.StaticCallee()
+		if len(g.Blocks) == 0 || len(g.Params) == 0 {
+			continue
+		}
+		nres := g.Signature.Results().Len()
+		if nres < 2 {
+			continue
+		}
+		// which quantity bounds the slice: a result of the call, or a constant not above a constant argument
+		resIdx, argIdx := -1, -1
+		if ex, isEx := stripConv(sl.Low).(*ssa.Extract); isEx && ex.Tuple == ssa.Value(call) && ex.Index < nres-1 {
+			resIdx = ex.Index
+		} else if k, isC := constInt(sl.Low); isC {
+			for ai := 1; ai < len(call.Call.Args); ai++ {
+				if ka, isCa := constInt(call.Call.Args[ai]); isCa && k <= ka && k >= 0 {
+					argIdx = ai
+				}
+			}
+		}
+		if resIdx < 0 && argIdx < 0 {
+			continue
+		}
+		// the site lies under the call's success edge (status == zero value)
+		succ := condEdges(f, func(v ssa.Value) (bool, bool) {
+			b, ok := v.(*ssa.BinOp)
+			if !ok || (b.Op != token.EQL && b.Op != token.NEQ) {
+				return false, false
+			}
+			isStatus := func(x ssa.Value) bool {
+				ex, ok := x.(*ssa.Extract)
+				return ok && ex.Tuple == ssa.Value(call) && ex.Index == nres-1
+			}
+			isZero := func(x ssa.Value) bool {
+				k, ok := x.(*ssa.Const)
+				if !ok {
+					return false
+				}
+				if k.Value == nil {
+					return true
+				}
+				n, isInt := constInt(k)
+				return isInt && n == 0
+			}
+			if (isStatus(b.X) && isZero(b.Y)) || (isStatus(b.Y) && isZero(b.X)) {
+				return true, b.Op == token.EQL
+			}
+			return false, false
+		})
+		if !guardedBy(f, in, succ) {
+			continue
+		}
+		// the reader's postcondition, at every return that may report success
+		bp := &boundsProver{fn: g}
+		proven, rets := true, 0
+		allInstrs(g, func(ri ssa.Instruction) {
+			r, isR := ri.(*ssa.Return)
+			if !isR || len(r.Results) != nres {
+				return
+			}
+			if k, isC := r.Results[nres-1].(*ssa.Const); isC {
+				if n, isInt := constInt(k); k.Value != nil && (!isInt || n != 0) {
+					return // a failure return
+				}
+			} else if !isErrorNilable(r.Results[nres-1]) {
+				// a computed status: may be success
+			} else {
+				return // a non-nil error value
+			}
+			rets++
+			var bound lin
+			if resIdx >= 0 {
+				bound = bp.linOf(r.Results[resIdx], 0)
+			} else {
+				bound = bp.linOf(g.Params[argIdx], 0)
+			}
+			goal := bp.lenOfBase(g.Params[0], 0).add(bound, -1)
+			if !bp.prove(goal, bp.factsAt(r.Block()), 4) {
+				proven = false
+			}
+		})
+		if proven && rets > 0 {
+			what := fmt.Sprintf("result #%d", resIdx)
+			if resIdx < 0 {
+				what = fmt.Sprintf("argument #%d", argIdx)
+			}
+			return fmt.Sprintf("bounded by %s of %s on its success edge; the reader proves it ≤ len(data) at its %d successful return(s)", what, funcKey(g), rets)
+		}
+	}
+	return ""
+}
+
+// isErrorNilable: v is a non-constant value of an interface (error) type — a constructed error.
+func isErrorNilable(v ssa.Value) bool {
+	_, isIface := v.Type().Underlying().(*types.Interface)
+	return isIface
 }
